@@ -242,8 +242,78 @@ namespace {
       }
    };
 
+   // Request histories: the answer to "the set of name w in family F" must not depend on what was asked before.
+   // Alphabet: {specifiers, qualifiers} x {every reserved word, the invisible logogram, a dynamic word}.  Model: a basic
+   // name of the family yields its single-element set (the value established cold, above), anything else is refused.
+   void request_histories(bool deep)
+   {
+      ipr::impl::Lexicon lex;
+      struct Req { int family; std::string word; const ipr::Logogram* logo; int basic; };
+      std::vector<Req> alpha;
+      std::vector<ipr::Specifiers> sval;
+      std::vector<ipr::Qualifiers> qval;
+      for (auto w : spec_names) sval.push_back(lex.specifiers(ipr::Basic_specifier{ lex.get_logogram(lex.get_string(w)) }));
+      for (auto w : qual_names) qval.push_back(lex.qualifiers(ipr::Basic_qualifier{ lex.get_logogram(lex.get_string(w)) }));
+      std::vector<std::u8string> words;
+      for (auto w : reserved) words.push_back(w);
+      words.push_back(u8""); words.push_back(u8"foo");
+      for (int f = 0; f < 2; ++f)
+         for (auto& w : words) {
+            int basic = -1;
+            if (f == 0) { for (int i = 0; i < 18; ++i) if (w == spec_names[i]) basic = i; }
+            else { for (int i = 0; i < 3; ++i) if (w == qual_names[i]) basic = i; }
+            alpha.push_back({ f, narrow(w.c_str()), &lex.get_logogram(lex.get_string(w)), basic });
+         }
+      auto ask = [&](const Req& r, const std::vector<int>& hist, std::size_t pos) {
+         rep.count("transitions");
+         bool refused = false, right = true;
+         try {
+            if (r.family == 0) { auto v = lex.specifiers(ipr::Basic_specifier{ *r.logo }); right = r.basic >= 0 and v == sval[std::size_t(r.basic)]; }
+            else { auto v = lex.qualifiers(ipr::Basic_qualifier{ *r.logo }); right = r.basic >= 0 and v == qval[std::size_t(r.basic)]; }
+         }
+         catch (...) { refused = true; }
+         const bool ok = r.basic >= 0 ? (not refused and right) : refused;
+         if (ok) return;
+         std::string text;
+         for (std::size_t k = 0; k <= pos; ++k) text += std::string(k ? " ; " : "") + (alpha[std::size_t(hist[k])].family ? "qualifiers(" : "specifiers(") + alpha[std::size_t(hist[k])].word + ")";
+         std::vector<long long> ops(hist.begin(), hist.begin() + long(pos) + 1);
+         const std::string fam = r.family ? "qual" : "spec";
+         rep.violation("C10:" + fam + ":history-dependent:" + (r.basic >= 0 ? (refused ? "basic-name-refused" : "basic-name-wrong-value") : "unknown-answered"), (long long) pos,
+                       "after the requests [" + text + "] the last one was " + (refused ? "refused" : "answered") + (r.basic >= 0 ? " although it names a basic element" : " although it is not a basic name of that family"),
+                       vf::JObj{}.str("pass", "C10").str("kind", "history").raw("ops", vf::jarr(ops)).done());
+         if (verbose) std::printf("  VIOLATION history-dependent: %s\n", text.c_str());
+      };
+      const int N = int(alpha.size());
+      long long job = 0;
+      // all ordered pairs over the full alphabet
+      for (int a = 0; a < N; ++a) {
+         if (not opt.mine(job++)) continue;
+         for (int b = 0; b < N; ++b) { std::vector<int> h{ a, b }; ask(alpha[std::size_t(a)], h, 0); ask(alpha[std::size_t(b)], h, 1); rep.count("traces"); rep.count("states", 2); }
+      }
+      // all ordered triples over a reduced alphabet: every basic name in both families + 4 (quick) / 12 (thorough) other words
+      std::vector<int> red;
+      int others = 0;
+      for (int i = 0; i < N; ++i) {
+         bool basic_somewhere = false;
+         for (auto w : spec_names) basic_somewhere = basic_somewhere or alpha[std::size_t(i)].word == narrow(w);
+         for (auto w : qual_names) basic_somewhere = basic_somewhere or alpha[std::size_t(i)].word == narrow(w);
+         if (basic_somewhere) red.push_back(i);
+         else if (i % 7 == 3 and others++ < (deep ? 12 : 4)) red.push_back(i);
+      }
+      for (int a : red) {
+         if (not opt.mine(job++)) continue;
+         for (int b : red) for (int c : red) { std::vector<int> h{ a, b, c }; ask(alpha[std::size_t(a)], h, 0); ask(alpha[std::size_t(b)], h, 1); ask(alpha[std::size_t(c)], h, 2); rep.count("traces"); rep.count("states", 3); }
+         if (opt.expired()) { rep.cap("deadline during request histories"); break; }
+      }
+      if (opt.shard == 0) {
+         rep.info("request_histories", vf::JObj{}.num("alphabet", N).num("pairs", (long long) N * N).num("reduced_alphabet", (long long) red.size()).num("triples", (long long) red.size() * red.size() * red.size()).done());
+         rep.sample(vf::JObj{}.str("history", "qualifiers(const) ; specifiers(const)").str("checked", "the second request is refused exactly as it is when asked first").done());
+      }
+   }
+
    void run(bool all_pairs)
    {
+      request_histories(all_pairs);
       ipr::impl::Lexicon lex;
       {
          Algebra<SpecKind> a{ lex };
